@@ -718,7 +718,7 @@ pub fn gen_lines(d: &Decl, rng: &mut Rng, n: usize) -> Vec<(String, &'static str
                 // surplus value / unknown option somewhere
                 let mut t = toks.clone();
                 for _ in 0..rng.range(1, 3) {
-                    let junk = rng.pick(&["extra", "--nope", "-Z", "-é", "--", "", "-", "--dry-run", "--nocache"]).to_string();
+                    let junk = rng.pick(&["extra", "--nope", "-Z", "-é", "--", "", "-", "--dry-run", "--nocache", "--help", "-h"]).to_string();
                     let at = rng.range(1, t.len());
                     t.insert(at, junk);
                 }
